@@ -379,4 +379,10 @@ def _js(m):
 
 def differs(a, b, tol=1e-7):
     a, b = float(a), float(b)
+    fa, fb = a == a and abs(a) != float("inf"), b == b and abs(b) != float("inf")
+    if not fa and not fb:
+        # both sides non-finite: the replay point is degenerate (coincident surfaces, say) - never a silent "agree"
+        raise ValueError("replay point degenerate: both values non-finite (%r, %r)" % (a, b))
+    if fa != fb:
+        return True
     return abs(a - b) > tol * max(1.0, abs(a), abs(b)) + 1e-10
